@@ -29,6 +29,8 @@ pub struct Profile {
     pub registry: bool,
     pub reply_w: [u32; 4],
     pub sparse_ids: bool,
+    /// per 16: the history has validators and staking messages / queries are generated
+    pub staking_p: usize,
 }
 
 impl Profile {
@@ -52,6 +54,7 @@ impl Profile {
             registry: false,
             reply_w: [4, 3, 3, 3],
             sparse_ids: false,
+            staking_p: 5,
         }
     }
 
@@ -148,6 +151,7 @@ pub fn hostile_keys(contracts: &[&str]) -> Vec<Vec<u8>> {
 }
 
 struct TxGen<'g, 'a> {
+    staking: bool,
     g: &'g mut Gen<'a>,
     p: &'g Profile,
     nodes: Vec<Node>,
@@ -231,7 +235,8 @@ impl TxGen<'_, '_> {
     }
 
     fn qspec(&mut self, depth: usize) -> QSpec {
-        match self.g.weighted(&[4, 3, 2, 4, 2, 1, if depth < 2 { 4 } else { 0 }, 2]) {
+        let sw = if self.staking { 2 } else { 0 };
+        match self.g.weighted(&[4, 3, 2, 4, 2, 1, if depth < 2 { 4 } else { 0 }, 2, sw, sw, sw, if self.staking { 1 } else { 0 }]) {
             0 => QSpec::Balance(self.aref(), self.g.below(3) as u8),
             1 => QSpec::AllBalances(self.aref()),
             2 => QSpec::Supply(self.g.below(3) as u8),
@@ -245,7 +250,41 @@ impl TxGen<'_, '_> {
                 let q = self.qnode(depth + 1);
                 QSpec::Smart(self.cref(), q)
             }
-            _ => QSpec::Custom(self.g.below(4) as u32),
+            7 => QSpec::Custom(self.g.below(4) as u32),
+            8 => QSpec::Delegation(self.aref(), self.vidx()),
+            9 => QSpec::AllDelegations(self.aref()),
+            10 => QSpec::BondedDenom,
+            _ => QSpec::AllValidators,
+        }
+    }
+
+    fn vidx(&mut self) -> u8 {
+        if self.g.chance(1, 12) {
+            255
+        } else {
+            self.g.below(2) as u8
+        }
+    }
+
+    fn stake_amt(&mut self) -> CoinSpec {
+        // denomination 1 is the bonded one; a foreign denomination is a listed failure
+        let denom = if self.g.chance(1, 12) { 0 } else { 1 };
+        let amt = match self.g.weighted(&[5, 2, 2, 1, 1]) {
+            0 => Amt::Exact(1 + self.g.below(6) as u128),
+            1 => Amt::Half,
+            2 => Amt::Bal,
+            3 => Amt::BalPlus(1),
+            _ => Amt::Exact(0),
+        };
+        CoinSpec { denom, amt }
+    }
+
+    fn staking_msg(&mut self) -> Msg {
+        match self.g.weighted(&[5, 4, 2, 1]) {
+            0 => Msg::Delegate { v: self.vidx(), amt: self.stake_amt() },
+            1 => Msg::Undelegate { v: self.vidx(), amt: self.stake_amt() },
+            2 => Msg::Redelegate { src: self.vidx(), dst: self.vidx(), amt: self.stake_amt() },
+            _ => Msg::SetWithdraw { to: self.aref() },
         }
     }
 
@@ -406,6 +445,9 @@ impl TxGen<'_, '_> {
         } else {
             [9, 2 * reg, 3, 1, 3, reg, reg, reg]
         };
+        if self.staking && self.g.chance(1, 5) {
+            return self.staking_msg();
+        }
         match self.g.weighted(&w) {
             0 => {
                 let node = self.node(depth, false);
@@ -505,7 +547,8 @@ pub fn gen_history(g: &mut Gen, p: &Profile, contracts_hint: &[&str]) -> History
         }
         codes.push(c);
     }
-    let setup = Setup { balances, codes, validators: 0, unbonding_time: 60 };
+    let staking = g.chance(p.staking_p, 16);
+    let setup = Setup { balances, codes, validators: if staking { 2 } else { 0 }, unbonding_time: g.pick(&[60u64, 0, 10]) };
     let hostile = hostile_keys(contracts_hint);
     let mut txs = vec![];
     let ntx = 2 + g.below(p.max_tx);
@@ -514,7 +557,7 @@ pub fn gen_history(g: &mut Gen, p: &Profile, contracts_hint: &[&str]) -> History
         if g.exhausted() && t > ninit {
             break;
         }
-        let mut tg = TxGen { g, p, nodes: vec![], qnodes: vec![], budget: p.max_nodes, uniq: 0, txno: t as u8, wcount: 0, hostile: hostile.clone() };
+        let mut tg = TxGen { staking, g, p, nodes: vec![], qnodes: vec![], budget: p.max_nodes, uniq: 0, txno: t as u8, wcount: 0, hostile: hostile.clone() };
         let kind = if t < ninit {
             // initial contracts: plain instantiations by users (first two from the same code)
             let node = tg.node(p.max_depth, false); // leaf-ish init node (no sub-messages)
